@@ -63,7 +63,8 @@ func c15Mkdir(doc string) (fsx.Snap, string) {
 	pan2 := sut.Guard(func() {
 		verr = gtree.VerifyFromMarkdown(strings.NewReader(doc), gtree.WithTargetDir(j.Target), gtree.WithStrictVerify())
 	})
-	return snap, strings.ReplaceAll(fmt.Sprintf("mkdir err=%v panic=%v | verify err=%v panic=%v", err, pan != "", verr, pan2 != ""), j.Target, "<T>")
+	// the verifier lists paths in map-iteration order: compare the lists as sorted sets
+	return snap, sortLines(strings.ReplaceAll(fmt.Sprintf("mkdir panic=%v verify panic=%v | mkdir err=%v | verify err=\n%v\n", pan != "", pan2 != "", err, verr), j.Target, "<T>"))
 }
 
 func c15Check(c *rep.Ctx, cn *c15Canon, d []int, names []string, sp enum.Spelling, idx int64) {
